@@ -200,6 +200,15 @@ func (ex *Exec) branchNoSite(c *Term) bool {
 		return true
 	}
 	// both feasible (or unknown): take true, queue false
+	if forkStat != nil {
+		site := "?"
+		if n := len(ex.stackNames); n > 0 {
+			site = ex.stackNames[n-1]
+		}
+		forkMu.Lock()
+		forkStat[site]++
+		forkMu.Unlock()
+	}
 	alt := append(append([]dec{}, ex.trace...), dec{Val: 0, N: 2})
 	ex.newAlts = append(ex.newAlts, alt)
 	ex.trace = append(ex.trace, dec{Val: 1, N: 2})
@@ -697,3 +706,11 @@ var incTimeoutMs = func() int {
 	}
 	return 1500
 }()
+
+var forkStat = func() map[string]int {
+	if os.Getenv("GOSYM_FORKSTAT") != "" {
+		return map[string]int{}
+	}
+	return nil
+}()
+var forkMu sync.Mutex
